@@ -6,7 +6,7 @@ GEN = ("python3 {verif}/engine/gen_rtcd.py {repo}/Source/Lib/Common/Codec/common
 UNITS = [
     Unit(uid="U06.1.common_dispatch", prop="C06", harness="harness/c06_dispatch.c", entry="h_dispatch", mode="plain",
          functions=["setup_common_rtcd_internal"], pre_cmds=[GEN], keep_bodies=["setup_common_rtcd_internal"], remove_bodies=["get_cpu_flags"], replace_calls={"get_cpu_flags_to_use": "stub_cpu_flags_to_use"},
-         min_obligations=500, cover_functions=[], timeout=900, mem_gb=16, unwind=64,
+         min_obligations=500, canaries=2, cover_functions=[], timeout=900, mem_gb=16, unwind=64,
          checks=["--pointer-check", "--bounds-check"],
          what="for every CPU flag word: every one of the ~500 common dispatch pointers (list generated from the header) is "
               "non-NULL after setup, and the table is a function of the flags only (two-run)"),
